@@ -43,6 +43,8 @@ def loop : Nat → Bytes → Bool → Bytes → Option Bytes
   | fuel + 1, s, escaping, acc =>
     let (r0, size) := Utf8.decodeRune s
     let s1 := s.drop size
+    -- not valid UTF-8 (outside an escape): the byte is kept as it is
+    if r0 == Utf8.runeError && size == 1 && !escaping then loop fuel s1 false (acc ++ s.take 1) else
     -- the rune after processing an escape, and the rest of the input
     let step : Option (Int × Bytes) :=
       if escaping then
